@@ -74,12 +74,22 @@ func (p *LP) LBlob(v any) string {
 	return core.App("Build_lblob", p.Cx.Blob(v), core.List(ls))
 }
 
+// LMeta abstracts Plan.Meta exactly as to nil-ness: nil is (true,true,0,0), the empty non-nil slice
+// (false,true,0,0), a non-empty one plancoq's Bytes (index >= 1). The label is that of the backing array,
+// which exists whenever the capacity is positive - also for an empty slice such as buf[:0].
 func (p *LP) LMeta(b []byte) string {
 	var ls []string
 	if cap(b) > 0 {
 		ls = append(ls, p.ptr(unsafe.Pointer(unsafe.SliceData(b))))
 	}
-	return core.App("Build_lblob", p.Cx.Bytes(b), core.List(ls))
+	v := p.Cx.Bytes(b)
+	switch {
+	case b == nil:
+		v = "(Build_blob true true 0%N 0%N)"
+	case len(b) == 0:
+		v = "(Build_blob false true 0%N 0%N)"
+	}
+	return core.App("Build_lblob", v, core.List(ls))
 }
 
 func (p *LP) LState(s *workflow.State) string {
